@@ -784,6 +784,22 @@ theorem plane_after_propagation (ph : R → K) (amp : Attr K) (opd : Attr R) (T0
 
 end afterprop
 
+section e2e_example
+/-- toy number system for the non-vacuity example below (the theorem is generic in `K`, `R`) -/
+local instance : RealLike Int := ⟨id, 6, id, fun x => x.natAbs⟩
+local instance : CxLike Int Int := ⟨fun t => t, id, id, fun z _ => z⟩
+
+/-- non-vacuity of `segmented_eq_monolithic_propagateDft` as a whole: all its hypotheses hold together for the two-plane chain of the
+split plane `Witness.sp` (two segments with overlapping row/column ranges and their union), a 4×4 oversampled output, the full
+propagation window and a non-zero common shift (the instantiated conclusion — equality of field and intensity at sample (1, 2) — is the type Lean infers for this term) -/
+example :=
+  segmented_eq_monolithic_propagateDft Witness.ph1 Witness.w0 rfl Witness.sp [Witness.sp]
+    (by intro x hx; simp only [List.mem_cons, List.not_mem_nil, or_false, or_self] at hx; subst hx; exact Witness.sp_wf)
+    Witness.sp_ext.1 Witness.sp_ext.2 1 1 2 2 2 2 2 none 1 0 0 0
+    (by rw [outExtent_nomask]; decide) (by decide) (fun z => z * z) (by simp) 1 2 (by decide) (by decide)
+
+end e2e_example
+
 section fitted
 
 /-- **segments with their own fitted tilts against the monolithic aperture** (`K = ℂ`; composes C04 `segmented_tilt_equiv_complex`
@@ -892,5 +908,20 @@ theorem segmented_eq_monolithic_interleaved (ph : R → K) (o : R) (hph : ph o =
   exact key
 
 end interleaved_e2e
+
+section interleaved_example
+local instance : RealLike Int := ⟨id, 6, id, fun x => x.natAbs⟩
+local instance : CxLike Int Int := ⟨fun t => t, id, id, fun z _ => z⟩
+
+/-- non-vacuity of `segmented_eq_monolithic_interleaved`: plane, Tilt plane, plane — with `Witness.sp` for both planes, an initial tilt
+list, a non-zero common shift and an output mask box; the instantiated conclusion is the inferred type of this term -/
+example :=
+  segmented_eq_monolithic_interleaved Witness.ph1 (0 : Int) rfl Witness.w0 rfl [TiltEl.angular 2 3] Witness.sp
+    [.inr (TiltEl.angular 1 0), .inl Witness.sp]
+    (by intro x hx; simp only [splits, List.mem_cons, List.not_mem_nil, or_false, or_self] at hx; subst hx; exact Witness.sp_wf)
+    Witness.sp_ext.1 Witness.sp_ext.2 1 1 2 2 2 2 2 (some ⟨1, 2, 0, 3⟩) 1 0 0 0
+    (by rw [outExtent_mask]; decide) (by decide) (fun z => z * z) (by simp) 1 2 (by decide) (by decide)
+
+end interleaved_example
 
 end Lentil.C03
